@@ -224,7 +224,7 @@ func (n *node) runBlock(txs []pb.Transaction) []*pb.Receipt {
 type execEngine struct {
 	nodes    []*node // replica 0 is the reference; others (C01) are fed the same blocks
 	sigOn    bool
-	admInit  map[string]*big.Int // admin balances when the history starts (reported normalised)
+	admInit  map[string]*big.Int // admin balances when the history starts
 	// C01, world option pipe=1: one more replica runs the executor's own goroutine pipeline (Start / ExecuteBlock:
 	// pre-execution stage, execution stage) and is handed every block without waiting for the previous one; its results
 	// are compared one block later
@@ -1066,11 +1066,7 @@ func (e *execEngine) query(ws []string) string {
 			fmtCounter(ic.SourceInterchainCounter), fmtCounter(ic.SourceReceiptCounter))
 	case "bal":
 		b := n.ldg.Copy().GetBalance(resolveAddr(ws[1]))
-		if init, ok := e.admInit[ws[1]]; ok {
-			// admins: normalised to the genesis balance at the start of the history
-			g, _ := new(big.Int).SetString(mkConfig(false, "parallel").Genesis.Balance, 10)
-			b = new(big.Int).Add(new(big.Int).Sub(b, init), g)
-		}
+		// (absolute balances: the Lean driver starts the admins from what the world's prelude leaves them with)
 		return b.String()
 	case "bals":
 		var ps []string
